@@ -321,6 +321,11 @@ func main() {
 			}
 			exportImportAt(f, r, sc, refSteps, k)
 		}
+	}
+	for _, sc := range scripts {
+		if f.Replay != "" && sc.Name != only.Script {
+			continue
+		}
 		if f.Replay == "" || only.Axis == "maporder" {
 			mapOrderAxis(f, r, sc, &only, &item)
 		}
